@@ -994,6 +994,13 @@ fn build_db(rng: &mut Rng, root: &Path, name: &str, spec: &DbSpec, pending: bool
 		let img = fresh_dir(root, &format!("{}-img", name));
 		copy_dir(&dir, &img);
 		let _ = std::fs::remove_file(img.join("lock"));
+		// one image in two also holds an EMPTY log file with an unused number (a crash before the first record header
+		// reached a new log file, or a reclaimed file of the pool): a successful open removes it in `Log::open`, a
+		// REFUSED open must leave it alone (seeded C17-c17e: `Log::open` moved in front of the metadata check)
+		if rng.chance(1, 2) {
+			let _ = std::fs::write(img.join("log9"), b"");
+			ctr.inc("db.built.with_empty_log_file");
+		}
 		drain(&db, &mut unread).map_err(|x| e("drain", x))?;
 		drop(db);
 		let _ = std::fs::remove_dir_all(&dir);
